@@ -38,12 +38,14 @@ func (l *ringLogger) Info(msg string, others ...interface{}) {
 	if l.OnInfo != nil {
 		l.OnInfo(msg)
 	}
+	l.add("I", msg, others)
 }
 func (l *ringLogger) Debugf(msg string, others ...interface{}) {}
 func (l *ringLogger) Infof(msg string, others ...interface{}) {
 	if l.OnInfo != nil {
 		l.OnInfo(msg)
 	}
+	l.add("I", fmt.Sprintf(msg, others...), nil)
 }
 func (l *ringLogger) Error(msg string, others ...interface{}) { l.add("E", msg, others) }
 func (l *ringLogger) Errorf(msg string, others ...interface{}) {
